@@ -5,7 +5,7 @@ from vf import common
 from vf.bounded import ir_domain, ir_findings, roundtrip as R, rt_check
 from vf.props import deductive, rt_props
 
-KEYS = ["vf.contracts.laws:sdd_twice", "vf.contracts.laws:quote_twice", "vf.contracts.laws:unquote_quote",
+KEYS = ["vf.contracts.laws:sdd_twice", "doctrans.emitter_utils:to_docstring", "vf.contracts.laws:quote_twice", "vf.contracts.laws:unquote_quote",
         "doctrans.pure_utils:quote", "doctrans.pure_utils:unquote", "doctrans.ast_utils:set_value",
         "doctrans.defaults_utils:set_default_doc", "doctrans.docstring_parsers:_set_name_and_type"]
 
